@@ -33,6 +33,22 @@ func WithExecID(ctx context.Context, id int64) context.Context {
 	return context.WithValue(ctx, execIDKey{}, id)
 }
 
+type cancelKey struct{}
+
+// WithCancelHandle stores the execution's own cancel function in its context so that scripted listeners and fallback
+// functions can cancel "their" execution (also when several executions share the listeners).
+func WithCancelHandle(ctx context.Context, cancel func()) context.Context {
+	return context.WithValue(ctx, cancelKey{}, cancel)
+}
+
+func cancelOf(ctx context.Context) func() {
+	if ctx == nil {
+		return nil
+	}
+	f, _ := ctx.Value(cancelKey{}).(func())
+	return f
+}
+
 func execID(ctx context.Context) int64 {
 	if ctx == nil {
 		return 0
@@ -231,8 +247,6 @@ type World struct {
 	Insts []*Built
 	// FallbackHook, when set, runs inside every scripted fallback function (used by checks that need to act there)
 	FallbackHook func(idx int, exec failsafe.Execution[int])
-	// CancelCurrent cancels the context of the execution in progress (set by the runner)
-	CancelCurrent func()
 	// Listeners can be switched off (nil listeners are a different code path in several executors)
 	NoListeners bool
 }
@@ -303,8 +317,8 @@ func (w *World) build(i int, in Inst) *Built {
 					en := rec.Attempt(i, "OnRetryScheduled", e.ExecutionAttempt)
 					en.HasDelay, en.Delay = true, e.Delay
 					rec.add(en)
-					if in.CancelInScheduled && w.CancelCurrent != nil {
-						w.CancelCurrent()
+					if f := cancelOf(e.Context()); in.CancelInScheduled && f != nil {
+						f()
 					}
 				})
 		}
@@ -363,8 +377,8 @@ func (w *World) build(i int, in Inst) *Built {
 				if w.FallbackHook != nil {
 					w.FallbackHook(i, exec)
 				}
-				if in.FbCancel && w.CancelCurrent != nil {
-					w.CancelCurrent()
+				if f := cancelOf(exec.Context()); in.FbCancel && f != nil {
+					f()
 				}
 				return v, e
 			})
